@@ -172,8 +172,9 @@ class Builder:
         if k == "flex": return data.FlexibleLayout(d[1], {key: data.Field(self.shape(f), off) for key, f, off in d[2]})
         raise HarnessError(d)
 
-    def pyvalue(self, d, raw, style=0):
-        """A Python-level initialiser that denotes the bit pattern `raw` of a field with descriptor d."""
+    def pyvalue(self, d, raw, style=0, top=True):
+        """A Python-level initialiser for the bit pattern `raw` of a field with descriptor d (style 1: aggregates
+        below the top are given as constants of their layout).  `denoted` says which pattern it denotes."""
         if d[0] == "u":
             return raw
         if d[0] == "s":
@@ -181,26 +182,47 @@ class Builder:
         if d[0] == "enum":
             v = sx(raw, d[1], d[3])
             return self.enum(d)(v) if v in d[2] else None
-        if style == 1:
+        if style == 1 and not top:
             return self.shape(d).from_bits(raw)
         if d[0] == "array":
             w = width(d[1])
-            vs = [self.pyvalue(d[1], (raw >> (i * w)) & ((1 << w) - 1), style) for i in range(d[2])]
+            vs = [self.pyvalue(d[1], (raw >> (i * w)) & ((1 << w) - 1), style, False) for i in range(d[2])]
             return None if any(v is None for v in vs) else vs
         if d[0] == "union":
             # one field only: take the widest, so that the whole pattern is expressed
             if not d[1]:
                 return {}
             name, f = max(d[1], key=lambda nf: width(nf[1]))
-            v = self.pyvalue(f, raw & ((1 << width(f)) - 1), style)
+            v = self.pyvalue(f, raw & ((1 << width(f)) - 1), style, False)
             return {name: v} if v is not None else None
         out = {}
         for key, f, off in fields(d):
-            v = self.pyvalue(f, (raw >> off) & ((1 << width(f)) - 1), style)
+            v = self.pyvalue(f, (raw >> off) & ((1 << width(f)) - 1), style, False)
             if v is None:
                 return None
             out[key] = v
         return out
+
+
+def denoted(d, raw, style=0, top=True):
+    """The bit pattern that Builder.pyvalue(d, raw, style) denotes: bits no named field covers (padding of a
+    flexible layout, the part of a union beyond the member given) stay zero; fields are written in key order."""
+    raw &= (1 << width(d)) - 1
+    if is_leaf(d) or (style == 1 and not top):
+        return raw
+    if d[0] == "array":
+        w = width(d[1])
+        return sum(denoted(d[1], (raw >> (i * w)) & ((1 << w) - 1), style, False) << (i * w) for i in range(d[2]))
+    if d[0] == "union":
+        if not d[1]:
+            return 0
+        name, f = max(d[1], key=lambda nf: width(nf[1]))
+        return denoted(f, raw & ((1 << width(f)) - 1), style, False)
+    out = 0
+    for key, f, off in fields(d):
+        m = (1 << width(f)) - 1
+        out = (out & ~(m << off)) | (denoted(f, (raw >> off) & m, style, False) << off)
+    return out
 
 
 def paths(d, prefix=(), off=0, maxdepth=3):
@@ -308,16 +330,7 @@ def layout_body(ctx, case):
                 if init is None or isinstance(init, data.Const):
                     continue
                 c2 = lay.const(init)
-                exp = raw
-                if d[0] == "union" and d[1]:
-                    name, f = max(d[1], key=lambda nf: width(nf[1]))
-                    exp = raw & ((1 << width(f)) - 1)
-                if d[0] == "flex":
-                    # bits not covered by any field stay zero; overlapping fields: later keys win (same values here)
-                    cov = 0
-                    for _, f, off in fields(d):
-                        cov |= ((1 << width(f)) - 1) << off
-                    exp = raw & cov
+                exp = denoted(d, raw, style)
                 if c2.as_bits() != exp:
                     raise Mismatch("const-from-field-values", raw=raw, style=style, init=repr(init)[:300],
                                    expected=exp, actual=c2.as_bits())
@@ -334,8 +347,8 @@ def layout_body(ctx, case):
                     val = hdl.Const(cv, Shape(cw, cs))
                     bits = hdl.Const(cv, Shape(cw, cs)).value & ((1 << fw) - 1) if fw else 0
                 else:
-                    val = b.pyvalue(f, v, style % 2)
-                    bits = v
+                    val = b.pyvalue(f, v, style % 2, False)
+                    bits = denoted(f, v, style % 2, False)
                     if val is None:
                         continue
                 if key in init:
@@ -447,18 +460,10 @@ def layout_body(ctx, case):
                 # (1b) the same with the Python-level value (dict / member / int) through the shape-castable path
                 pv = b.pyvalue(f, val, 0)
                 if pv is not None and not is_leaf(f) or (is_leaf(f) and f[0] == "enum" and pv is not None):
-                    cov = mask
-                    if f[0] == "flex":
-                        cov = 0
-                        for _, g, o2 in fields(f):
-                            cov |= ((1 << width(g)) - 1) << (off + o2)
-                    if f[0] == "union" and f[1]:
-                        n2, g = max(f[1], key=lambda nf: width(nf[1]))
-                        cov = ((1 << width(g)) - 1) << off
                     c.set(vv, base)
                     c.set(tgt, pv)
                     got = c.get(vv)
-                    exp2 = (base & ~mask) | ((val << off) & cov)
+                    exp2 = (base & ~mask) | (denoted(f, val, 0) << off)
                     if got != exp2:
                         fail.append(Mismatch("view-write-ctx.set-python-value", path=list(path), base=base, value=repr(pv)[:200],
                                              expected=exp2, actual=got)); return
@@ -583,7 +588,7 @@ def class_body(ctx, case):
             v = b.pyvalue(fdesc[name], raw)
             if v is not None:
                 ns[name] = v
-                dv[name] = raw
+                dv[name] = denoted(fdesc[name], raw)
         base = data.Struct if d[0] == "struct" else data.Union
         cls = type("Agg", (base,), ns)
         lay = b.shape(d)
@@ -607,7 +612,7 @@ def class_body(ctx, case):
         for name, raw in case["override"].items():
             v = b.pyvalue(fdesc[name], raw)
             if v is not None:
-                oinit[name] = v; ov[name] = raw
+                oinit[name] = v; ov[name] = denoted(fdesc[name], raw)
         if oinit:
             s1 = Signal(cls, init=oinit)
             exp = compose(ov) if d[0] == "union" else compose({**dv, **ov})
